@@ -277,8 +277,8 @@ func (blockchain *Blockchain) BeginBlock(req abciTypes.RequestBeginBlock) abciTy
 
 	if emission := blockchain.appDB.Emission(); emission.Cmp(blockchain.rewardsCounter.TotalEmissionBig()) == -1 {
 		t, _, _, _, _ := blockchain.appDB.GetPrice()
-		if height%blockchain.updateStakesAndPayRewardsPeriod == 1 && (t.IsZero() || (req.Header.Time.Hour() >= 12 && req.Header.Time.Hour() <= 14) && req.Header.Time.Sub(t) > 3*time.Hour) {
-			reserve0, reserve1 := blockchain.stateCheck.Swap().GetSwapper(0, types.USDTID).Reserves()
+		if pool := blockchain.stateCheck.Swap().GetSwapper(0, types.USDTID); pool.Exists() && height%blockchain.updateStakesAndPayRewardsPeriod == 1 && (t.IsZero() || (req.Header.Time.Hour() >= 12 && req.Header.Time.Hour() <= 14) && req.Header.Time.Sub(t) > 3*time.Hour) {
+			reserve0, reserve1 := pool.Reserves()
 			funcUpdatePrice := blockchain.appDB.UpdatePriceBug
 			if h := blockchain.appDB.GetVersionHeight(V320); h > 0 && height > h {
 				funcUpdatePrice = blockchain.appDB.UpdatePriceFix
